@@ -199,6 +199,8 @@ func checkC04(P *Prog, r *Result) {
 		}
 	}
 	r.floor("C04/required-not-swallowed", 15)
+	// absence means different things in the two modes: no node may run a child in the other mode
+	P.checkModeConsistent(r, "C04/mode-consistent")
 	_ = R
 }
 
